@@ -254,7 +254,7 @@ class Constraint:
                 features.add(node.data)
             elif node.is_unary_op():
                 stack.append(node.left)
-            elif node.is_binary_op():
+            elif node.is_binary_op() or node.is_aggregate_op():
                 stack.append(node.right)
                 stack.append(node.left)
         return list(features)
